@@ -241,11 +241,19 @@ pub fn c19_build(raw: &Raw, _tier: Tier, _sched: bool) -> Scenario {
     }
     // one subscriber object registered in both stores, plus one private subscriber each
     let shared = b.sub(SubKind::Direct);
+    let mut forwarder = None;
     for (s, _, _) in &stores {
         b.s.prelude.push(Op::Subscribe { store: *s, sub: shared });
         let own = b.sub(SubKind::Direct);
+        if *s == 0 {
+            // store 0's private subscriber forwards some actions into store 1 from inside
+            // on_notify, i.e. from store 0's reducer thread
+            b.sub_mut(own).forwards = true;
+            forwarder = Some(own);
+        }
         b.s.prelude.push(Op::Subscribe { store: *s, sub: own });
     }
+    let _ = forwarder;
     let nthreads = raw.threads.len();
     for (t, ops) in raw.threads.iter().enumerate() {
         let th = b.thread();
@@ -255,6 +263,10 @@ pub fn c19_build(raw: &Raw, _tier: Tier, _sched: bool) -> Scenario {
                 0..=10 => {
                     let o = ActOpts { reducers: &reds, middlewares: &mws, effects: true, followups: b.s.stores[s].policy == Pol::Block, veto: true, keeps: true, panics: false };
                     let a = scripted_action(&mut b, s, r, &o);
+                    if s == 0 && (r.k >> 9) % 3 == 0 {
+                        let f = b.action(1, 0);
+                        b.act_mut(a).forward = Some(f);
+                    }
                     Op::Dispatch { act: a, via: via_of(r) }
                 }
                 11 => Op::GetState { store: s },
@@ -414,6 +426,9 @@ pub fn c19_check(scn: &Scenario, h: &History) -> Outcome {
     if shared_unsub {
         out.class("shared-subscriber-unsubscribed-from-one");
     }
+    if d.disps.iter().any(|x| matches!(x.src, Src::Nest(Nest::Sub(..)))) {
+        out.class("forwarded-from-the-other-stores-reducer-thread");
+    }
     if in_flight || busy_after {
         out.nontrivial = true;
     }
@@ -422,7 +437,7 @@ pub fn c19_check(scn: &Scenario, h: &History) -> Outcome {
 
 pub static C19: Profile = Profile {
     id: "C19",
-    rule: "proptest scenarios: two stores with equal or different configuration (same name half of the time, the same scripted reducer/middleware types, one subscriber object registered in both plus a private one each), 1-4 client threads operating on both (dispatch through every entry point, thunks, get_state, get_metrics, unsubscribe of the shared subscriber from store 0), store 0 stopped or dropped at a generated point while store 1 is in use. Oracle O-ISOL: the C01/C03/C07/C12 pipeline model, effect, acceptance and C18 metric equations evaluated per store on that store's sub-log; no callback of one store ever carries a component or action of the other; store 1 keeps accepting and reducing after Ret(stop store 0). Non-trivial = store 1 had an action in flight while store 0 was being stopped, or was used after it; distinct by scenario hash.",
+    rule: "proptest scenarios: two stores with equal or different configuration (same name half of the time, the same scripted reducer/middleware types, one subscriber object registered in both plus a private one each), 1-4 client threads operating on both (dispatch through every entry point, thunks, get_state, get_metrics, unsubscribe of the shared subscriber from store 0; a subscriber of store 0 forwarding actions into store 1 from store 0's reducer thread), store 0 stopped or dropped at a generated point while store 1 is in use. Oracle O-ISOL: the C01/C03/C07/C12 pipeline model, effect, acceptance and C18 metric equations evaluated per store on that store's sub-log; no callback of one store ever carries a component or action of the other; store 1 keeps accepting and reducing after Ret(stop store 0). Non-trivial = store 1 had an action in flight while store 0 was being stopped, or was used after it; distinct by scenario hash.",
     raw,
     build: c19_build,
     check: c19_check,
